@@ -42,8 +42,8 @@ impl Parser {
         let mut child_span = input.as_span();
 
         for (idx, child) in children.enumerate() {
-            if idx == expected_types.len() {
-                if idx == 0 {
+            if idx >= expected_types.len() {
+                if expected_types.is_empty() {
                     return Err(vec![new_err(
                         child_span,
                         &input.user_data().get_source_file_name(),
@@ -51,7 +51,10 @@ impl Parser {
                             .to_owned(),
                     )]);
                 }
-                break;
+                // a surplus argument: count it, so that the arity check below rejects the call.
+                child_span = child.as_span();
+                result_len += 1;
+                continue;
             }
 
             child_span = child.as_span();
